@@ -5,7 +5,8 @@
 // Case line:  <id> key=value key=value ...        (keys unknown to the harness are model-only facts)
 //   rs=<hex of YARA source>
 //   in=<input>;<input>;...      input = <src>~<b0>+<b1>+...   src = @<path relative to the repo> | - | <hex>
-//                               block = <size> or <size>! (fetch_data returns NULL); sizes sum to the input size
+//                               block = <size>[!][@<base>]  (! : fetch_data returns NULL; @base: reported base address, default
+//                               contiguous); sizes sum to the input size
 //   fl=<scan flags>  to=<timeout seconds>
 // Trace of one API call: events joined by ',' then ",rc=<NAME>":
 //   I:<module> M:<module>  +r<rule idx>[s<string idx>@<abs offset>:<len>;...]  -r<idx>[...]  T:s<idx>  F
@@ -91,6 +92,7 @@ typedef struct
 {
   uint8_t* data; size_t size;
   int nblocks; size_t bsize[MAXBLK]; int avail[MAXBLK];
+  uint64_t bbase[MAXBLK];   // base address reported for each block (default: contiguous from 0; "<size>@<base>" sets it)
   char path[512];   // non-empty: the bytes also exist as this file
 } INPUT;
 
@@ -125,7 +127,10 @@ static void parse_input(char* tok, INPUT* in)
   {
     size_t l = strlen(b[i]);
     in->avail[i] = 1;
+    char* at = strchr(b[i], '@');
+    if (at) { *at = 0; l = strlen(b[i]); }
     if (l && b[i][l - 1] == '!') { in->avail[i] = 0; b[i][l - 1] = 0; }
+    in->bbase[i] = at ? strtoull(at + 1, 0, 10) : sum;
     in->bsize[i] = strtoull(b[i], 0, 10); sum += in->bsize[i];
   }
   if (sum != in->size) DIE("partition of %zu does not sum to input size %zu", sum, in->size);
@@ -172,7 +177,7 @@ static YR_MEMORY_BLOCK* it_next(YR_MEMORY_BLOCK_ITERATOR* it)
   if (c->pos >= c->in->nblocks) { c->ended = 1; return NULL; }
   size_t base = 0;
   for (int i = 0; i < c->pos; i++) base += c->in->bsize[i];
-  c->blk.base = base; c->blk.size = c->in->bsize[c->pos];
+  c->blk.base = c->in->bbase[c->pos]; c->blk.size = c->in->bsize[c->pos];
   c->blk.context = c->in->avail[c->pos] ? (void*) (c->in->data + base) : NULL;
   c->blk.fetch_data = it_fetch;
   c->pos++;
